@@ -11,7 +11,7 @@ import (
 )
 
 func init() {
-	register("C04", "Decides the structure that confines a canary to status.canary.nodes: (R1) the role of a replica set is `canary` only with Status.Canary != nil ∧ Status.Canary.ReplicaSet == name ∧ Status.ActiveReplicaSet != name and `active` only with ActiveReplicaSet == name; every role the role function can return dispatches to a strategy function, and a strategy function that plans pod creations/deletions is called only under role active or canary; (R2) on every path of the parameter builder on which the replica set is active while a canary is recorded, the mapping function receives Status.Canary.Nodes as its ignore list, and the mapping function creates no per-node entry and cleans up no pod for an ignored node; (R3) the active planner never sees canary nodes (by R2 on all paths, or by a removal loop over Parameters.CanaryNodes that dominates every other use of the per-node map); (R4) in the canary role every creation candidate is NodeByName[n] for n ranging over Parameters.CanaryNodes, Parameters.CanaryNodes is Status.Canary.Nodes and the node index maps a name to the node of that name; (R5) the selection loop adds a new node only while len(list) < resolved replicas and leaves the loop or re-checks the bound after every addition; (R7) the bound of R5 is the same number everywhere: every resolution of Strategy.Canary.Replicas reachable from the ExtendedDaemonSet reconciler rounds up and uses Status.Desired of the same reconciled ExtendedDaemonSet as total; (R9) when the canary-label clean-up is limited to a time window, the window's origin is read from the replica set's Active condition and every dispatch in a non-active role records Active=False before or inside the strategy function; (R10) every non-error return of the canary-role strategy function is dominated by the pass that adds the canary label; (R6) the canary label is added only to the pod of a canary node whose replica-set label names this replica set, and removed only from pods listed with {canary label, replica-set label == this replica set} by a function that runs in the active role.", runC04)
+	register("C04", "Decides the structure that confines a canary to status.canary.nodes: (R1) the role of a replica set is `canary` only with Status.Canary != nil ∧ Status.Canary.ReplicaSet == name ∧ Status.ActiveReplicaSet != name and `active` only with ActiveReplicaSet == name; every role the role function can return dispatches to a strategy function, and a strategy function that plans pod creations/deletions is called only under role active or canary; (R2) on every path of the parameter builder on which the replica set is active while a canary is recorded, the mapping function receives Status.Canary.Nodes as its ignore list, and the mapping function creates no per-node entry and cleans up no pod for an ignored node; (R3) the active planner never sees canary nodes (by R2 on all paths, or by a removal loop over Parameters.CanaryNodes that dominates every other use of the per-node map); (R4) in the canary role every creation candidate is NodeByName[n] for n ranging over Parameters.CanaryNodes, Parameters.CanaryNodes is Status.Canary.Nodes and the node index maps a name to the node of that name; (R5) the selection loop adds a new node only while len(list) < resolved replicas and leaves the loop or re-checks the bound after every addition; (R7) the bound of R5 is the same number everywhere: every resolution of Strategy.Canary.Replicas reachable from the ExtendedDaemonSet reconciler rounds up and uses Status.Desired of the same reconciled ExtendedDaemonSet as total; (R9) when the canary-label clean-up is limited to a time window, the window's origin is read from the replica set's Active condition and every dispatch in a non-active role records Active=False before or inside the strategy function; (R10) every non-error return of the canary-role strategy function is dominated by the pass that adds the canary label; (R6) the canary label is added only to the pod of a canary node whose replica-set label names this replica set, and removed only from pods listed with {canary label, replica-set label == this replica set} by a function that runs in the active role. (R11, imported C09.R3) the start of the rolling update, which opens the window of the canary-label clean-up, is the Active condition's LastTransitionTime only while that condition is True.", runC04)
 }
 
 // c04Site is one call of a strategy function from the replica-set reconciler.
